@@ -9,10 +9,71 @@ use verif_harness::*;
 const DETAIL: u8 = 1;
 const WATCHDOG_MS: u64 = 4000;
 const MAX_HANGS: usize = 6;
+/// Yen's with k >= 2 may not return (known finding K_yens_k_ge_2): short watchdog, small budget, never an alarm here
+const KSP_WATCHDOG_MS: u64 = 1000;
+const KSP_MAX_HANGS: usize = 6;
 
 struct Ctx {
     st: Stream,
     hangs: usize,
+    ksp_hangs: usize,
+}
+
+fn alg_name(a: &Alg) -> String {
+    match a {
+        Alg::Dijkstra => "dijkstra".to_string(),
+        Alg::AStar(None) => "astar(default)".to_string(),
+        Alg::AStar(Some(x)) => format!("astar({})", x),
+    }
+}
+
+/// Yen's k-shortest paths over `under`: no model line (NOMODEL), judged by S only -- chain clause for EVERY returned
+/// route, tree clause for the returned tree; a panic / timeout is "no result" (counted, not judged)
+fn add_ksp_case(cx: &mut Ctx, family: &str, w: &World, k: usize, under: &Alg, s: usize, t: usize) {
+    if cx.ksp_hangs >= KSP_MAX_HANGS {
+        return;
+    }
+    let id = cx.st.next_id();
+    let o = run_yens_watchdog(w, k, under, s, t, KSP_WATCHDOG_MS);
+    if o.status == "Hang" {
+        cx.ksp_hangs += 1;
+    }
+    let st = &mut cx.st;
+    st.count(&format!("family:{}", family));
+    st.count(&format!("ksp_k:{}", k));
+    st.count(&format!("ksp_underlying:{}", alg_name(under)));
+    let (line, s_term) = if o.is_ok() {
+        let maxlen = o.routes.iter().map(|r| r.len()).max().unwrap_or(0);
+        st.count(&format!("ksp_routes_returned:{}", o.routes.len().min(6)));
+        st.count(&format!("ksp_longest_route_edges:{}", maxlen.min(8)));
+        let mut repeats = false;
+        for r in &o.routes {
+            let mut seen = std::collections::HashSet::new();
+            if !r.iter().all(|h| seen.insert(h.edge)) {
+                repeats = true;
+            }
+        }
+        if repeats {
+            st.count("ksp_some_route_repeats_an_edge(not judged here)");
+        }
+        if o.routes.len() >= 2 {
+            st.mark_nontrivial(&format!("ksp|{}|{}|{}|{}|{}", world_to_json(w), k, alg_name(under), s, t));
+        }
+        (show_outcome(&o, DETAIL), term_s_ksp(id, w, s, t, &o, NumKind::F, DETAIL))
+    } else {
+        let payload = if o.status == "Panic" || o.status == "Hang" {
+            st.count(&format!("k_class_no_result:{}", o.status));
+            "k_class_no_result".to_string()
+        } else {
+            st.count(&format!("ksp_status:{}", o.status));
+            o.status.clone()
+        };
+        (payload.clone(), term_const("S", id, &payload))
+    };
+    let under_json = query_to_json(&Query { alg: *under, dir: Dir::Forward, orient: Orient::Vertex, source: s, target: Some(t), query_wf: None });
+    let desc = json!({"id": id, "family": family, "world": world_to_json(w), "query": under_json,
+                      "ksp": {"k": k}, "impl_short": show_outcome(&o, 0).chars().take(200).collect::<String>()});
+    st.case(vec![term_const("M", id, "NOMODEL"), s_term], vec![format!("I {} {}", id, line)], desc);
 }
 
 fn route_len(o: &Outcome) -> usize {
@@ -79,7 +140,7 @@ fn main() {
         }
         std::process::exit(0);
     }
-    let mut cx = Ctx { st: Stream::new(&a.out, "walk", HEADER, a.shards), hangs: 0 };
+    let mut cx = Ctx { st: Stream::new(&a.out, "walk", HEADER, a.shards), hangs: 0, ksp_hangs: 0 };
     if let Some(p) = &a.replay {
         cx.st.full = true;
         let v: serde_json::Value = serde_json::from_str(&std::fs::read_to_string(p).unwrap()).unwrap();
@@ -92,7 +153,11 @@ fn main() {
             let w = world_from_json(&case["world"]);
             let q = query_from_json(&case["query"]);
             let fam = case.get("corpus").and_then(|x| x.as_str()).map(|x| format!("corpus:{}", x)).unwrap_or("replay".to_string());
-            add_case(&mut cx, &fam, &w, &q, json!({}));
+            if let Some(k) = case.get("ksp").and_then(|x| x.get("k")).and_then(|x| x.as_u64()) {
+                add_ksp_case(&mut cx, &fam, &w, k as usize, &q.alg, q.source, q.target.unwrap());
+            } else {
+                add_case(&mut cx, &fam, &w, &q, json!({}));
+            }
         }
         cx.st.finish();
         std::process::exit(0);
@@ -107,6 +172,9 @@ fn main() {
     for (name, w, q) in reopen_cases() {
         add_case(&mut cx, &name, &w, &q, json!({}));
     }
+    for (name, w, k, under, s, t) in ksp_cases() {
+        add_ksp_case(&mut cx, &name, &w, k, &under, s, t);
+    }
     // ---- random worlds ----
     let mut rng = Rng::new(a.seed);
     while cx.st.next_id() < a.n && cx.hangs < MAX_HANGS {
@@ -116,6 +184,16 @@ fn main() {
             5..=7 => CostFamily::TieRich,
             _ => CostFamily::LongHaul,
         };
+        if r.chance(1, 8) {
+            // Yen's k-shortest paths on a chain-with-detours network, k in 2..4, over Dijkstra / A*
+            let (mut w, s, t) = gen_ksp_world(&mut r);
+            let under = *r.pick(&[Alg::Dijkstra, Alg::Dijkstra, Alg::AStar(None), Alg::AStar(Some(0.5)), Alg::AStar(Some(3.0))]);
+            let hk = *r.pick(&[HKind::Zero, HKind::Exact, HKind::Admissible, HKind::Wild]);
+            gen_heuristic(&mut r, &mut w, Dir::Forward, Some(t), hk);
+            let k = r.range(2, 4) as usize;
+            add_ksp_case(&mut cx, "random_ksp_yens", &w, k, &under, s, t);
+            continue;
+        }
         let (mut w, flags) = gen_world(&mut r, fam);
         // a few queries per world (the graph is the expensive part to vary, the query the cheap one)
         let k = 1 + r.below(3);
